@@ -88,12 +88,13 @@ def cls(name, **kw):
 
 
 class LoopSpec:
-    def __init__(self, inv=None, ghosts=None, modifies=None, lemmas=None, unroll=False):
+    def __init__(self, inv=None, ghosts=None, modifies=None, lemmas=None, unroll=False, body=None):
         self.inv = dict(inv or {})          # clause -> lambda(lc) -> BoolRef | [BoolRef]
         self.ghosts = dict(ghosts or {})    # name -> (type, init lambda(lc), step lambda(lc))
         self.modifies = modifies            # optional explicit list of roots
         self.lemmas = lemmas                # lambda(lc) -> [BoolRef] extra hypotheses (lemma instances)
         self.unroll = unroll
+        self.body = dict(body or {})        # clause -> lambda(lc): checked at the end of an arbitrary iteration
 
 
 class FuncSpec:
@@ -101,7 +102,8 @@ class FuncSpec:
                  raises=None, modifies=None, modifies_args=(), ghost_update=None, pure=False, ret=None,
                  returns_self=False, loops=None, lemmas=None, logical=None, inline=False, may_fail=False,
                  assume_only=False, entry_inv=True, exit_inv=True, notes='', src_cls=None, implements=None,
-                 local_types=None, exc_inv=False, src_name=None, opaque=None, callee_variants=None, mirrors=None):
+                 local_types=None, exc_inv=False, src_name=None, opaque=None, callee_variants=None, mirrors=None,
+                 counts=None, ghost_out=None, body_ensures=None):
         self.key = key
         self.file = file
         self.params = dict(params or {})
@@ -130,6 +132,9 @@ class FuncSpec:
         self.local_types = dict(local_types or {})
         self.exc_inv = exc_inv
         self.src_name = src_name
+        self.body_ensures = dict(body_ensures or {})   # postcondition clauses over the body's own events (draw discipline): proved, never assumed at call sites
+        self.counts = dict(counts or {})        # event counter -> lambda(c) -> number of events one call adds
+        self.ghost_out = dict(ghost_out or {})  # ghost results: name -> (type, lambda(c) -> defining term at exit of the body)
         self.mirrors = dict(mirrors or {})   # real list field -> (ghost list field, lambda(c) -> value recorded per write)
         self.callee_variants = dict(callee_variants or {})
         self.opaque = opaque            # lambda(c) -> opaque atom standing for the whole postcondition (assumed at call sites)
@@ -204,8 +209,14 @@ class NS:
 class Ctx:
     """context of a function-level clause: old/new self, args (entry values), result, events, logical vars"""
 
-    def __init__(self, old=None, new=None, a=None, res=None, run=None, lg=None, a_new=None):
+    def __init__(self, old=None, new=None, a=None, res=None, run=None, lg=None, a_new=None, gout=None, cnt0=None):
         self.old, self.new, self.a, self.res, self.run, self.lg, self.a_new = old, new, a, res, run, lg, a_new
+        self.gout = gout
+        self.cnt0 = cnt0 or {}
+
+    def added(self, name):
+        """number of events of that kind since function entry (symbolic)"""
+        return self.run.counter(name) - self.cnt0.get(name, 0)
 
     @property
     def events(self):
@@ -317,3 +328,9 @@ def _c(x):
     if isinstance(x, (list, tuple)):
         return z3.And(*x)
     return x
+
+
+def str_key(s):
+    """the Key constant of a string literal"""
+    from .symex import str_const
+    return str_const(s).t
